@@ -1070,3 +1070,42 @@ func runMethodClosure(w *World, pkgs ...string) map[*ssa.Function][]*ssa.Functio
 	}
 	return out
 }
+
+// SNAPSHOT: a finalizer (`Build`) hands out an object that no longer depends on the builder: the receiver pointer is
+// only read through in the method (loads of *recv / of its fields) and never stored, wrapped into an interface, passed
+// on or returned — otherwise what is registered on the builder AFTER Build changes a handler already given away.
+func builderPointerKept(p ssa.Value) []ssa.Instruction {
+	var out []ssa.Instruction
+	refs := p.Referrers()
+	if refs == nil {
+		return nil
+	}
+	for _, ref := range *refs {
+		switch x := ref.(type) {
+		case *ssa.UnOp: // load
+		case *ssa.FieldAddr:
+			// address of a field: escapes if that address is itself kept (not merely loaded from)
+			for _, r2 := range *x.Referrers() {
+				switch y := r2.(type) {
+				case *ssa.UnOp:
+				case *ssa.Store:
+					if y.Val == ssa.Value(x) {
+						out = append(out, r2)
+					}
+				case *ssa.DebugRef:
+				default:
+					out = append(out, r2)
+				}
+			}
+		case *ssa.Store:
+			if x.Val == p {
+				out = append(out, ref)
+			}
+		case *ssa.DebugRef:
+		case *ssa.BinOp: // nil comparison
+		default:
+			out = append(out, ref)
+		}
+	}
+	return out
+}
